@@ -601,7 +601,7 @@ class C14(PropCheck):
         for k, wrap in ((11, False), (13, False), (18, False), (7, True)):
             out.append({"k": "deep", "k_": k, "wrap": wrap})
         # the Trio glue is installed by the first extraction after `import trio`, wherever that happens (fresh interpreters)
-        for first in ("outside", "before_run", "before_io_wait", "after_task_step", "task", "thread"):
+        for first in ("outside", "before_run", "before_io_wait", "after_task_step", "task", "thread", "racing_thread"):
             out.append({"k": "lazy", "first": first})
         for m in list(range(0, 4)) + [21, 22]:        # > 100 non-frame items on one stack: the loop guard must not fire
             out.append({"k": "hops", "hops": m})
